@@ -207,7 +207,7 @@ def c13(ctx, rep):
     rep.trust("set iteration order of str elements depends on PYTHONHASHSEED; dict iteration is insertion order (language reference)", "passlib: .using() without salt= draws a random salt per hash() call",
               "random.*, time.*, os.urandom, uuid.*, secrets.*, id(), hash() are nondeterministic across runs")
     rep.assume("os.walk enumeration order is a property of the file system, identical across runs on the same tree", "third-party internals other than the passlib entries read are not in the table")
-    fns = entry_closure(ctx)
+    fns = [f for f in entry_closure(ctx) if f.qualname not in ctx.helpers]  # helpers are analysed inlined into their callers
     rep.stat("closure_functions", len(fns))
     for f in fns:
         rep.analysed(f)
@@ -337,7 +337,7 @@ def c14(ctx, rep):
     rep.trust("passlib md5_crypt.using(salt=s) raises ValueError unless len(s) <= 8", "ipaddress.IPv4Address/IPv6Address(str) raise AddressValueError outside ACCEPT4/ACCEPT6",
               "re.sub with a str replacement raises re.error on bad escapes", "hashlib hexdigest() is 32 hex digits; str.format('{:0Nb}') yields only '0'/'1'")
     rep.assume("exceptions of kinds not in the table (MemoryError, UnicodeEncodeError for lone surrogates in the salt, bidict duplication) and catastrophic regex backtracking are not decided")
-    fns = perline_closure(ctx)
+    fns = [f for f in perline_closure(ctx) if f.qualname not in ctx.helpers]  # helpers are analysed inlined into their callers
     names = {f.name for f in fns}
     rep.stat("perline_functions", len(fns))
     for f in fns:
@@ -729,7 +729,9 @@ def _k7(ctx, rep, fns, av, k_counts):
                 k_counts["K7"] += 1
                 if callee.name == "juniper_decrypt":
                     arg = cs.term[2][0] if cs.term[2] else None
-                    guarded = _inside_try_valueerror(f, cs.effect.node)
+                    host = getattr(cs.effect, "origin", None)
+                    host = host if host is not None and host != "synthetic" else f
+                    guarded = _inside_try_valueerror(host, cs.effect.node)
                     on_output = arg is not None and any(sx[0] == "call" and M.callee_name(sx) in ("juniper_nonrandom_encrypt", "hash", "format", "b2a_hex") for sx in subterms(arg)) or (arg is not None and arg[0] == "const")
                     why = "inside try/except ValueError" if guarded else "applied to an encoder output / pseudonym (%s)" % show(arg)[:50] if on_output else "unguarded"
                     # decrypting a NON-$9$ pseudonym raises: only licensed when the pseudonym is the $9$ encoder's output
